@@ -88,8 +88,9 @@ def run(ctx):
             if n.k == "CallExpr" and n.callee in ("memcpy", "memset") and n.args():
                 if any(x.k == "DeclRefExpr" and x.get("d") in derived for x in n.args()[0].walk()):
                     stores.append(n)
-            if n.k == "CallExpr" and n.callee and n.callee.startswith("snappy_emit"):
-                stores.append(n)
+            elif n.k == "CallExpr" and n.callee and any(
+                    x.k == "DeclRefExpr" and x.get("d") in derived for a in n.args() for x in a.walk()):
+                stores.append(n)        # a helper that is handed a pointer into dst writes through it
         ctx.floor("%s stores through dst" % fname, len(stores), 3)
         bad = [s for s in stores if not f.cfg.node_dominates(g0, s)]
         ctx.ob("R6.dominate", key, P.where(guard),
@@ -157,12 +158,28 @@ def offset_width_rule(ctx):
     P = ctx.P
     for file_, fname in ((SN, "carquet_snappy_compress"), (LZ, "carquet_lz4_compress")):
         f = P.fn(fname, file_)
+        # the match loop may live in a static helper of the same file
+        from .. import callgraph
+        cg = callgraph.get(P)
+        scope = [P.functions[k] for k in sorted(cg.reachable([f.key()]))
+                 if k in P.functions and P.functions[k].file == f.file]
         ks = []
-        for n in f.body.walk():
+        ptrdiff = set()     # locals defined as a pointer difference
+        nodes = [(g, n) for g in scope for n in g.body.walk()]
+        for g, n in nodes:
+            if n.k == "DeclStmt":
+                for d, init in zip(n.get("decls", []), n.c):
+                    x = init.strip_casts() if init is not None else None
+                    if x is not None and x.k == "BinaryOperator" and x.op == "-" and "*" in (x.c[0].strip().t or "") \
+                            and "*" in (x.c[1].strip().t or ""):
+                        ptrdiff.add((g.name, d.get("d")))
+        for g, n in nodes:
             if n.k == "BinaryOperator" and n.op in (">", ">="):
-                l, r = n.c[0].strip(), n.c[1]
-                if l.k == "BinaryOperator" and l.op == "-" and "*" in (l.c[0].strip().t or "") and \
-                        "*" in (l.c[1].strip().t or "") and r.cv is not None:
+                l, r = n.c[0].strip_casts(), n.c[1]
+                isdiff = l.k == "BinaryOperator" and l.op == "-" and "*" in (l.c[0].strip().t or "") and \
+                    "*" in (l.c[1].strip().t or "")
+                isdiff = isdiff or (l.k == "DeclRefExpr" and l.get("dk") == "local" and (g.name, l.get("d")) in ptrdiff)
+                if isdiff and r.cv is not None:
                     ks.append((n, r.cv if n.op == ">" else r.cv - 1))
         key = "offset-width|%s:%s" % (file_, fname)
         if not ks:
